@@ -281,7 +281,10 @@ func checkExit(code int) {
 		vp.Assert("flag-overrides-config-check-crl", e.sawRot.CheckCrl == effCrl)
 		vp.Assert("flag-overrides-config-get-collateral", e.sawRot.GetCollateral == effColl)
 		if in.fBundles != "" {
-			vp.Assert("trusted-roots-flag-used", len(e.sawRot.CabundlePaths) == 1)
+			// the flag overrides the config's bundle list
+			vp.Assert("trusted-roots-flag-overrides-config", len(e.sawRot.CabundlePaths) == 1 && e.sawRot.CabundlePaths[0] == in.fBundles)
+		} else if in.configPresent && in.rotPresent && len(e.cfg.RootOfTrust.CabundlePaths) == 1 {
+			vp.Assert("unset-trusted-roots-flag-leaves-config", len(e.sawRot.CabundlePaths) == 1 && e.sawRot.CabundlePaths[0] == "/roots/from-config.pem")
 		}
 	}
 	if e.sawPolicy != nil {
@@ -333,6 +336,9 @@ func h19b(focus int) {
 	cfg := &ccpb.Config{}
 	if in.rotPresent {
 		cfg.RootOfTrust = &ccpb.RootOfTrust{CheckCrl: in.cfgCheckCrl, GetCollateral: in.cfgColl}
+		if focus == 3 && vp.Choose("cfgBundles", 2) == 1 {
+			cfg.RootOfTrust.CabundlePaths = []string{"/roots/from-config.pem"}
+		}
 	}
 	if in.policyShape > 0 {
 		cfg.Policy = &ccpb.Policy{}
